@@ -44,6 +44,7 @@ structure S where
   evs : List Ev := []                    -- reversed
   bad : Option String := none            -- first diff of this execution (reported at `end`)
   blockedSeen : List String := []
+  closeSleeps : Nat := 0                 -- polls of the winning Close (grace period accounting)
   deriving Inhabited
 
 def getThr (s : S) (n : String) : Thr := (s.thr.find? (·.name == n)).getD { name := n }
@@ -100,8 +101,9 @@ def closeStep (s : S) (t : Thr) (label : String) : S × Thr × List String :=
       let s := act s .closeCas "closeCas(loser)"
       done s t
     else (act s .closeCas "closeCas", { t with inClose := true }, [])
+  | "Close.len-queue" => (act s .closeLen "closeLen", t, [])
   | "Close.load-running" => (act s .closeLoad "closeLoad", t, [])
-  | "Close.sleep" => (act s .closeSleep "closeSleep", t, [])
+  | "Close.sleep" => ({ (act s .closeSleep "closeSleep") with closeSleeps := s.closeSleeps + 1 }, t, [])
   | "Close.closeerr" => ({ (act s .closeSetErr "closeSetErr") with closeErr := t.closeArg }, t, [])
   | "Close.tr-close" => (act s .closeTr "closeTr", t, ["tr:close"])
   | "Close.cancel" => (act s .closeCancel "closeCancel", t, [])
@@ -124,22 +126,25 @@ def clientStep (s : S) (t : Thr) (label : String) (case : Int) : S × Thr × Lis
   else if t.inClose || label.startsWith "Close." then closeStep s t label
   else match label with
   | "IsActive.load-closed" => (s, finish t, [retEv t (if s.st.closed then 0 else 1) "nil"])
-  -- first / second read of c.closeErr in Write1 / Writev / write1
-  | "write1.closeerr" | "Writev.closeerr" =>
-    if t.stage == 0 then (s, { t with stage := 1 }, [])
-    else
-      if s.st.closeErrSet && s.closeErr != "nil" then (s, finish t, [retEv t 0 s.closeErr])
-      else (fail s "second closeErr read without a stored close error", t, [])
+  -- closedError(): entry check of every write entry point (stage 0) or the error of the closed branch (stage 2)
+  | "closedError.load-closed" =>
+    if s.st.closed then
+      (if t.stage == 0 then act s .rejectWrite "rejectWrite" else s, { t with stage := t.stage + 10 }, [])
+    else if t.stage == 0 then (act s .beginWrite "beginWrite", { t with stage := 1 }, [])
+    else (fail s "closed branch taken but channel not closed", t, [])
+  | "closedError.closeerr" =>
+    if t.stage >= 10 then
+      let e := if s.st.closeErrSet && s.closeErr != "nil" then s.closeErr else "chclosed"
+      (s, finish t, [retEv t 0 e])
+    else (fail s "close error read without closed flag", t, [])
   | "asyncWrite.pool-get" | "asyncWritev.pool-get" => (s, t, [])
   | "asyncWrite.select" | "asyncWritev.select" =>
     if case == 2 then (act s (.enqueue (pkt t)) "enqueue", t, [])
     else if case == 0 then
-      if ctxDone s t.ctx then (s, finish t, [retEv t 0 "ctx"]) else (fail s "caller-context case taken but context live", t, [])
+      if ctxDone s t.ctx then (act s .abortCtx "abortCtx", finish t, [retEv t 0 "ctx"]) else (fail s "caller-context case taken but context live", t, [])
     else if case == 1 then
-      if s.st.ctxDone then (s, { t with stage := 2 }, []) else (fail s "channel-context case taken but context live", t, [])
+      if s.st.ctxDone then (act s .abortClosed "abortClosed", { t with stage := 2 }, []) else (fail s "channel-context case taken but context live", t, [])
     else (act s .noSpace "noSpace", finish t, [retEv t 0 "nospace"])
-  | "asyncWrite.closeerr" | "asyncWritev.closeerr" =>
-    (s, finish t, [retEv t 0 (if s.st.closeErrSet then s.closeErr else "nil")])
   | "asyncWrite.cas-running" | "asyncWritev.cas-running" =>
     let won := !s.st.running
     let s := act s .casWriter "casWriter"
@@ -187,8 +192,9 @@ def senderStep (s : S) (t : Thr) (label : String) (case : Int) : S × Thr × Lis
         (if stays then s else { s with lingering := s.lingering.eraseIdx i }, t, [])
       | none => (fail s s!"len-queue by {t.name}: neither owner at len1 nor lingering", t, [])
   | "writeOnce.tr-flush" => (act s (.sndFlush true) "sndFlush", t, ["tr:flush"])
+  | "writeOnce.store-failed" => (act s .sndFailMark "sndFailMark", t, [])
   | "writeOnce.store-running" =>
-    if s.st.snd == some .failed then ({ (act s .sndFailStore "sndFailStore") with owner := "" }, t, [])
+    if s.st.snd == some .failedStore then ({ (act s .sndFailStore "sndFailStore") with owner := "" }, t, [])
     else ({ (act s .sndStore "sndStore") with owner := "", lingering := s.lingering ++ [t.name] }, t, [])
   | "writeOnce.cas-running" =>
     match s.lingering.findIdx? (· == t.name) with
@@ -321,7 +327,8 @@ def specCheck (prop : String) (s : S) (endStatus : String) : Option String :=
         | none => none)
     else none
   -- C06: payloads accepted before Close was invoked are written and flushed before the transport is closed
-  let c5 := if prop == "C06" || prop == "C05" then
+  let gaveUp := !s.st.untilW && s.closeSleeps ≥ 10     -- bounded wait: sender stalled beyond the grace period
+  let c5 := if (prop == "C06" || prop == "C05") && !gaveUp then
       firstSome calls (fun c =>
         if isWriteKind c.kind && c.err == "nil" && (c.retStep.getD 1000000) < firstCloseBegin && !c.payload.isEmpty && trCloseStep < 1000000 then
           match pairs.find? (fun (_, d) => d.tid == c.tid && d.idx == c.idx) with
